@@ -650,6 +650,7 @@ def atoms_of(fact_cond, pol):
     """Expand a branch outcome into a conjunction of atomic outcomes where possible:
        !(X) -> flip; (X && Y)=true -> X,Y true; (X || Y)=false -> X,Y false.  Other shapes stay compound."""
     out = []
+    depth_guard = 0
     stack = [(fact_cond, pol)]
     while stack:
         n, p = stack.pop()
@@ -664,9 +665,38 @@ def atoms_of(fact_cond, pol):
             stack.append((n.c[1], False))
         elif n.k == "CXXStaticCastExpr" and n.tc == "bool" and n.c:
             stack.append((n.c[0], p))
+        elif n.k == "DeclRefExpr" and n.decl and n.decl.get("k") == "local" and n.tc == "bool" and _single_def(n) is not None and depth_guard < 40:
+            # const bool ok = (a == b); ... if (!ok) throw;   -> look through the flag
+            depth_guard += 1
+            stack.append((_single_def(n), p))
         else:
             out.append((n, p))
     return out
+
+
+def _single_def(ref):
+    """initialiser of a local that is defined once and never written afterwards, else None"""
+    fn = ref.fn
+    cache = getattr(fn, "_single_def_cache", None)
+    if cache is None:
+        cache = {}
+        defs, written = {}, set()
+        for x in fn.walk():
+            if x.k == "VarDecl" and x.decl and x.decl.get("k") == "local":
+                defs.setdefault(x.decl["id"], []).append(x)
+            if x.k in ("BinaryOperator", "CompoundAssignOperator") and x.op and x.op.endswith("=") and x.op not in ("==", "!=", "<=", ">=") and x.c:
+                l = x.c[0].strip_all()
+                if l.k == "DeclRefExpr" and l.decl:
+                    written.add(l.decl.get("id"))
+            if x.k == "UnaryOperator" and x.op in ("++", "--") and x.c:
+                l = x.c[0].strip_all()
+                if l.k == "DeclRefExpr" and l.decl:
+                    written.add(l.decl.get("id"))
+        for i, ds in defs.items():
+            if len(ds) == 1 and ds[0].c and i not in written:
+                cache[i] = ds[0].c[0]
+        fn._single_def_cache = cache
+    return cache.get(ref.decl["id"])
 
 
 class Program:
